@@ -8,7 +8,7 @@ BUDGET = {"quick": 240, "thorough": 2400}
 BOUNDS = {"quick": "collision structure: <= 2 existing x <= 2 new pairs with keys chosen by the solver from {a, b, c}; text: one key or one value "
                    "of <= 2 free code points (all of Unicode, no lone surrogates) among concrete neighbours; one symbolic int in [-10^6, 10^6]; all "
                    "argument forms (str, dict, MultiDict, sequence of pairs, kwargs); rejected types concretely",
-          "thorough": "<= 3 existing x <= 3 new pairs; value texts of <= 3 free code points"}
+          "thorough": "<= 3 existing x <= 3 new pairs; texts of <= 2 free code points"}
 ASSUMPTIONS = ["read-back goes through the models of urllib.parse.parse_qsl and multidict (its own pure-Python reference, instrumented; DESIGN 2.4), "
                "validated per path against the real parse_qsl and the compiled multidict (concordance)",
                "float rendering, bool/None/NaN/inf/bytes rejection and the argument-form dispatch are a finite type matrix executed concretely in the "
@@ -258,7 +258,7 @@ def families(tier):
             for form in ("list", "multidict", "dict", "dict-list", "kwargs"):
                 if where == "key" and form in ("dict", "dict-list", "kwargs"):
                     continue
-                for n in ((1, 2) if q or where == "key" else (1, 2, 3)):
+                for n in (1, 2):       # 3 free code points did not finish within 10 min on 16 cores (measured), so it is outside both tiers
                     fams.append(Family("text/%s/%s/%s/n=%d" % (op, where, form, n), h_text, dict(where=where, op=op, form=form, n=n)))
         fams.append(Family("int/%s" % op, h_int, dict(op=op)))
     fams.append(Family("types", h_types, {}))
